@@ -333,6 +333,63 @@ def _sub_case(ch, max_body, nested, len_exhaustive, body_ops):
     return {"fam": "sub", "trace": tr}
 
 
+def _drv_sublit():
+    """The same Python literal against the same outer value in sibling scopes and in the enclosing graph: every
+    combination of {Add, Mul} x literal in the then-body, the else-body (or a Loop body) and a later outer call, with
+    typed and untyped graph inputs (an untyped operand sends the promoted literal through a dynamic CastLike)."""
+    lits = [L(1.0), L(2.5), L(0)]
+
+    def driver(ch):
+        env = _feed_env()
+        nid = 0
+        kind = ch.all("kind", ["if", "loop"])
+        cid = nid
+        nid += 1
+
+        def body(tag, first):
+            nonlocal nid
+            op = ch.all(f"{tag}.op", ["Add", "Mul"])
+            lit = ch.all(f"{tag}.lit", lits)
+            c = {"k": "op", "id": nid, "op": op, "args": [first, lit], "attrs": {}, "out": 1}
+            _try([c], env)
+            nid += 1
+            return c, f"%{c['id']}.0"
+
+        if kind == "if":
+            tb, tl = body("then", V("x"))
+            eb, el = body("else", V("x"))
+            c = {"k": "if", "id": cid, "cond": V("c"), "then": {"calls": [tb], "ret": [V(tl)]},
+                 "else": {"calls": [eb], "ret": [V(el)]}}
+        else:
+            env[f"%{cid}.s0"] = T._need_array(env, V("y"))
+            env[f"%{cid}.it"] = np.array(0, np.int64)
+            env[f"%{cid}.c"] = np.array(True)
+            b1, l1 = body("body", V("x"))
+            b2 = {"k": "op", "id": nid, "op": "Add", "args": [V(f"%{cid}.s0"), V(l1)], "attrs": {}, "out": 1}
+            _try([b2], env)
+            nid += 1
+            c = {"k": "loop", "id": cid, "trip": L(2), "init": [V("y")],
+                 "body": {"calls": [b1, b2], "ret_cond": V(f"%{cid}.c"), "ret_state": [V(f"%{b2['id']}.0")], "ret_scan": []}}
+        c["decl_typed"] = True
+        calls = [c]
+        when = ch.all("outer-use", ["after", "before", "none"])
+        if when != "none":
+            op = ch.all("outer.op", ["Add", "Mul"])
+            lit = ch.all("outer.lit", lits)
+            o = {"k": "op", "id": nid, "op": op, "args": [V("x"), lit], "attrs": {}, "out": 1}
+            nid += 1
+            calls = [o] + calls if when == "before" else calls + [o]
+            calls.append({"k": "op", "id": nid, "op": "Sub", "args": [V(f"%{cid}.0"), V(f"%{o['id']}.0")], "attrs": {}, "out": 1})
+            nid += 1
+        tr = {"typed": ch.all("typed", [True, False]), "calls": calls}
+        try:
+            T.replay(tr, T.FEEDS[0], cross_check=False)
+        except T.ReplayError:
+            raise explore.Prune() from None
+        return {"fam": "sub", "trace": tr}
+    return driver
+
+
 # functions
 _FN_ATTRS = {
     "leaky": [({}, "py"), ({"alpha": 0.5}, "py"), ({"alpha": 0.5}, "obj")],
@@ -511,6 +568,7 @@ def _explorations(tier):
             ("lit2", _drv_lit(2, [LIT_USES, LIT_USES]), 0),
             ("out2", _drv_out(2, ("", "L", "L+M", "K+M")), 0),
             ("sub", _drv_sub(2, False, len_exhaustive=False), 1),
+            ("sublit", _drv_sublit(), 0),
             ("fn", _drv_fn(False), 1),
             ("tree", _drv_tree(3, 3), 1),
             ("tree", _drv_tree(4, 3, chain=True), 1),
@@ -527,6 +585,7 @@ def _explorations(tier):
         ("out3", _drv_out(3), 0),
         ("sub", _drv_sub(2, True, len_exhaustive=False), 1),
         ("subx", _drv_sub(2, True, ops=["Add", "Mul", "Neg"]), 1),
+        ("sublit", _drv_sublit(), 0),
         ("fn", _drv_fn(False), 2),
         ("tree", _drv_tree(4, 3), 2),
     ]
